@@ -153,6 +153,28 @@ def handle (j : Json) : Except String Json := do
     | .error e => pure (Json.mkObj [("perr", Json.str (match e with | .unsupported => "unsupported" | .malformed => "malformed" | .tooDeep => "tooDeep"))])
   | "tokenize" =>
     pure (Json.arr ((levels 0 (tokenize (← decStr (← j.getObjVal? "text")))).map fun t => Json.arr #[Json.num (Lean.JsonNumber.fromInt t.1), str t.2]).toArray)
+  | "read" =>
+    let fsj ← (← j.getObjVal? "fs").getArr?
+    let fs ← fsj.toList.mapM fun e => do
+      let a ← e.getArr?
+      if a.size != 2 then throw "bad fs entry"
+      let p ← decComps a[0]!
+      let body ← match a[1]!.getObjVal? "native" with
+        | .ok t => do pure (FileBody.native (← decStr t))
+        | .error _ => do pure (FileBody.json (← decEntries (← a[1]!.getObjVal? "json")))
+      pure (p, body)
+    let p ← decComps (← j.getObjVal? "path")
+    let flag (k : String) (d : Bool) : Bool := match j.getObjVal? k with | .ok (Json.bool b) => b | _ => d
+    let scope ← match j.getObjVal? "scope" with | .ok v => decPath v | .error _ => pure []
+    let o : ReadOpts := { includes := flag "includes" true, order := flag "order" false, comments := flag "comments" true, scope := scope }
+    match readFile evalInt fs o (← decCounter j) p with
+    | .ok (.ok sd c) => pure (Json.mkObj [("sd", encSD sd), ("counter", encCounter c)])
+    | .ok .exit1 => pure (Json.str "exit1")
+    | .error e => pure (Json.mkObj [("perr", Json.str (match e with | .unsupported => "unsupported" | .malformed => "malformed" | .tooDeep => "tooDeep"))])
+  | "evalint" =>
+    match evalInt (← decStr (← j.getObjVal? "s")) with
+    | .value v => pure (encVal v)
+    | _ => pure (Json.str "unsupported")
   | _ => throw s!"unknown op {op}"
 
 end DictIO.Ops
